@@ -232,7 +232,12 @@ def multi_guard_case(args):
                 script += (b'rx z repl %s\n' if ext[n] == 'cp' else b'rx z future %s\n') % n.encode()
             else:                 # recorded time T0 (2017): a change made now is newer
                 script += (b'rx z cp alt %s\n' if ext[n] == 'cp' else b'rx z touch %s\n') % n.encode()    # (:! is refused while the buffer is modified)
-    cmd = R.choice([b'xa', b'xa', b'xa', b'wq', b'x', b'w'])
+    cmd = R.choice([b'xa', b'xa', b'xa', b'wq', b'x', b'w', b'FOREIGN', b'FOREIGN'])
+    foreign = None
+    if cmd == b'FOREIGN':
+        # an existing file that is open in ANOTHER buffer is as foreign to the current buffer as any other file
+        foreign = R.choice([n for n in names if n != cur])
+        cmd = R.choice([b'w %s', b'1,1w %s', b'w %s']) % foreign.encode()
     script += b'ec ' + S(0) + b'\n' + cmd + b'\nec ' + S(1) + b'\n' + cmd + b'\nec ' + S(2) + b'\n'
     r, d, lg = run_ex(vi, so, script + b'q!\n', files, None, mt)
     got = {n: common.readf(d, n) for n in names}
@@ -240,6 +245,8 @@ def multi_guard_case(args):
     wit = {'index': idx, 'script': script, 'dirty': dirty, 'changed_on_disk': ext}
     if S(0) not in r.out or r.timed_out:
         return ('inconclusive', None, wit)
+    if foreign and not ext[foreign] and got[foreign] != ondisk[foreign]:
+        return ('guard:clobbered', '%d buffers, current %s: :%s (no !) replaced the existing file of another buffer: now %r' % (nf, cur, cmd.decode(), common.show(got[foreign] or b'', 50)), wit)
     for n in names:
         if not ext[n]:
             continue
@@ -249,7 +256,7 @@ def multi_guard_case(args):
                 nf, n, 'replaced' if ext[n] == 'cp' else 'touched', cmd.decode(), common.show(got[n] or b'', 50)), wit)
     if S(1) not in r.out and any(dirty[n] and ext[n] for n in names):
         return ('guard:quit-despite-refusal', '%d buffers, dirty %s changed on disk %s, :%s exited' % (nf, dirty, ext, cmd.decode()), wit)
-    return ('ok' if any(dirty[n] and ext[n] for n in names) else 'ok-trivial', None, wit)
+    return ('ok' if foreign or any(dirty[n] and ext[n] for n in names) else 'ok-trivial', None, wit)
 
 
 def run(tier, V):
@@ -318,7 +325,7 @@ def run(tier, V):
            'syscall_sequences': seqs, 'guard_cases': [g[2] for g in gjobs], 'exhaustive': True,
            'rule': ('for each buffer shape (empty / one line / one batch / several batches / lines >= 4096 / mixture) and save command, a dry run under the shim gives the open/write/close sequence of the save; '
                     'then EVERY position x EVERY kind (%s error returns; short counts 1, half, len-1) is injected, one fault per run (2 processes per fault: inspect file after the command; continue with :q, :b, :w!, :q). '
-                    'non-trivial = the shim log shows the fault fired (INJECTED).  guards: full truth table target {own, foreign-existing, absent} x mtime {older, equal, newer} x {w, w!}; + random scenarios with 2-3 buffers, files replaced/touched behind the editor, any buffer current, then w/wq/x/xa without !.' % ','.join(err_kinds)),
+                    'non-trivial = the shim log shows the fault fired (INJECTED).  guards: full truth table target {own, foreign-existing, absent} x mtime {older, equal, newer} x {w, w!}; + random scenarios with 2-3 buffers, files replaced/touched behind the editor, any buffer current, then w/wq/x/xa or a write to another open buffer\'s file without !.' % ','.join(err_kinds)),
            'samples': [{'buffer': j[2], 'command': j[6], 'fault': j[7]} for j in jobs[::max(1, len(jobs) // 5)]][:6]}
     assumptions = ['a save fd is a descriptor opened with O_WRONLY|O_CREAT; ftruncate faults are outside the quantifier (open/write/close)',
                    'the retry after a failure is :w! (a torn write legitimately advanced the file\'s mtime)',
